@@ -167,6 +167,74 @@ STREAM(ca_prog) {
   }
 }
 
+// the same histories over the small dimensions (m = 1, 2, 4 mixed with 8, 16), where kernels switch between their
+// scalar and vector forms: operands in exactly-sized heap blocks (an overrun is a sanitizer report in the asan
+// variant) and the fresh-table comparison.  Oracle only (the rebuild observation needs m >= 8, see ca_prog).
+STREAM(ca_small) {
+  auto F = fns();
+  int ncalls = thorough ? 300 : 100;
+  const uint32_t MS[] = {1, 2, 4, 8, 16, 8, 4, 8, 16};
+  const double DIVS[] = {1.0, 2.0, 4.0, 0.5, 8.0};
+  const uint32_t BNDS[] = {50, 40, 63, 52, 50};
+  const uint32_t OVHS[] = {18, 10, 18, 12};
+  for (auto& f : F) {
+    const bool r4 = std::string(f.name).rfind("reim4_", 0) == 0;   // reim4 kernels are defined for m >= 4
+    std::string verdict = "ok";
+    P prev{0, 0, 0, 0};
+    for (int c = 0; c < ncalls; c++) {
+      P p;
+      if (c > 0 && prev.m >= 8 && rng.below(3) == 0) { p = prev; p.m = rng.below(3) ? 1 : 2; }  // vector-sized table, then the smallest dimensions, same key otherwise
+      else if (c > 0 && rng.below(3) == 0) p = prev;
+      else {
+        p.m = MS[rng.below(9)];
+        p.divisor = DIVS[rng.below(5)];
+        p.log2bound = BNDS[rng.below(5)];
+        p.log2overhead = OVHS[rng.below(4)];
+        if (c > 0 && rng.below(2)) {  // change exactly one parameter (most often m)
+          P q = prev;
+          switch (rng.below(5)) { case 0: q.divisor = p.divisor; break; case 1: q.log2bound = p.log2bound; break; case 2: q.log2overhead = p.log2overhead; break;
+            default: q.m = p.m; }
+          p = q;
+        }
+      }
+      if (r4 && p.m < 4) p.m = 4 << rng.below(3);
+      if (std::string(f.name) == "reim_from_znx64_simple" && p.log2bound > 50) p.log2bound = 50;
+      prev = p;
+      size_t nin = f.in_doubles * p.m * 8, nout = f.out_doubles * p.m * 8, nio = nin > nout ? nin : nout;
+      uint8_t *a = (uint8_t*)malloc(nin), *b = (uint8_t*)malloc(nin), *o1 = (uint8_t*)malloc(nio), *o2 = (uint8_t*)malloc(nio);
+      for (size_t i = 0; i < nin / 8; i++) {
+        double x, y;
+        int64_t xi;
+        switch (f.in_kind) {
+          case 1: xi = rng.sbits(49); memcpy(&a[8 * i], &xi, 8); break;
+          case 2: { int32_t t[2] = {(int32_t)rng.next(), (int32_t)rng.next()}; memcpy(&a[8 * i], t, 8); break; }
+          case 3: x = (double)rng.sbits(17) * p.divisor + (double)rng.sbits(20) / 1048576.0; memcpy(&a[8 * i], &x, 8); break;
+          case 4: x = (rng.below(2) ? ((double)rng.sbits(20) + 0.5) * p.divisor : (double)rng.sbits(30) / 1024.0 + 1.0 / 3.0); memcpy(&a[8 * i], &x, 8); break;
+          default: x = (double)rng.sbits(30) / 1024.0 + 1.0 / 3.0; memcpy(&a[8 * i], &x, 8); break;
+        }
+        y = (double)rng.sbits(30) / 4096.0 + 1.0 / 7.0;
+        memcpy(&b[8 * i], &y, 8);
+      }
+      for (size_t i = 0; i < nio / 8; i++) { double z = (double)rng.sbits(20); memcpy(&o1[8 * i], &z, 8); }
+      if (nio % 8) memset(o1 + nio - nio % 8, 0, nio % 8);
+      memcpy(o2, o1, nio);
+      f.simple(p, a, b, o1);
+      f.fresh(p, a, b, o2);
+      if (memcmp(o1, o2, nout) != 0 && verdict == "ok") {
+        char buf[200];
+        snprintf(buf, sizeof buf, "FAIL C15 %s call %d (m=%u divisor=%g log2bound=%u log2overhead=%u) differs from a fresh table", f.name, c, p.m, p.divisor, p.log2bound, p.log2overhead);
+        verdict = buf;
+      }
+      free(a); free(b); free(o1); free(o2);
+      out.count("calls");
+      if (p.m < 8) out.count("calls_m_below_8");
+    }
+    fprintf(out.ops, "ca nop ca_small %s calls=%d", f.name, ncalls);
+    fprintf(out.real, "nop");
+    out.endcase(verdict);
+  }
+}
+
 // tables built with different values of a parameter that is NOT part of the cache key must be identical
 // byte for byte (this validates the hand-declared `irrelevant` list used by the C15 theorem)
 STREAM(ca_irrelevant) {
